@@ -21,6 +21,13 @@ Modelled rather than verified (the theorems do not speak about these):
   service is configured with; the prediction model is an arbitrary function (parameter); the LRU
   order of the `lru` crate is modelled, not verified; the haversine value used by
   `estimate_traversal` is an input.
+* table files: the configured path reads rows through `Speed::from_str` / `Grade::from_str`, which
+  refuse NaN (speeds, grades), negative speeds and infinite grades (`bad_speed_row_rejected`,
+  `bad_grade_row_rejected`); an infinite speed is accepted (edge time 0).  `get_max_speed` on a
+  table that contains NaN (reachable only by constructing the engine directly) follows the
+  `OrderedFloat` order in the code and is not modelled.
+* a query that changes the *format* of `battery_state` is refused by `StateModel::extend`
+  (`stateFeaturesAccepted`; the rule itself is C11's `StateFeature.eqv`).
 * `PredRecord.predict` itself does not check the cache policy's length; the check
   (`FloatCachePolicy::get`) is modelled where `traverse_edge` reaches it (`cacheAccepts`).
 -/
@@ -980,7 +987,7 @@ theorem soc_bounds_configured (svc : Service α) (eng : SpeedEngine α) (fu : Fe
 
 /-- units left out of the configuration default to the base units; the service's speed unit is the
 time model's -/
-theorem config_defaults (rows : List α) (su : SpeedUnit) (eng : SpeedEngine α) (m : α)
+theorem config_defaults (rows : List (Row α)) (su : SpeedUnit) (eng : SpeedEngine α) (m : α)
     (h : SpeedEngine.ofConfig rows su none none = .ok (eng, m)) (gt : Option (List α)) (gu : GradeUnit) :
     eng.distanceUnit = baseDistanceUnit ∧ eng.timeUnit = baseTimeUnit ∧ eng.speedUnit = su
       ∧ (Service.ofConfig su gt gu none).distanceUnit = baseDistanceUnit
@@ -992,13 +999,24 @@ theorem config_defaults (rows : List α) (su : SpeedUnit) (eng : SpeedEngine α)
     · cases h
     · cases h; exact ⟨rfl, rfl, rfl, rfl, rfl⟩
 
-/-- a speed table with a negative row does not build -/
-theorem negative_speed_rejected (rows : List α) (su : SpeedUnit) (du : Option DistanceUnit)
-    (tu : Option TimeUnit) (x : α) (hx : x ∈ rows) (hneg : x < 0) :
+/-- a speed table with a negative row or a NaN row does not build (an infinite speed does) … -/
+theorem bad_speed_row_rejected (rows : List (Row α)) (su : SpeedUnit) (du : Option DistanceUnit)
+    (tu : Option TimeUnit) (h : Row.nan ∈ rows ∨ ∃ x, Row.val x ∈ rows ∧ x < 0) :
     SpeedEngine.ofConfig rows su du tu = .error .build := by
-  have : rows.any (fun x => decide (x < (zero : α))) = true := by
-    rw [List.any_eq_true]; exact ⟨x, hx, by simpa using hneg⟩
+  have : rows.any Row.badSpeed = true := by
+    rw [List.any_eq_true]
+    rcases h with h | ⟨x, hx, hneg⟩
+    · exact ⟨_, h, rfl⟩
+    · exact ⟨_, hx, by simpa [Row.badSpeed] using hneg⟩
   simp only [SpeedEngine.ofConfig, loadSpeedTable, this, if_true]
+
+/-- … and neither does a grade table with a row that is not a finite number (NaN, ±inf): such a
+grade would turn into a NaN energy and a NaN charge (repaired in /repo: `Grade::from_str`) -/
+theorem bad_grade_row_rejected (rows : List (Row α)) (h : Row.nan ∈ rows) :
+    loadGradeTable (some rows) = .error .build := by
+  have : rows.any Row.isNan = true := by
+    rw [List.any_eq_true]; exact ⟨_, h, rfl⟩
+  simp only [loadGradeTable, this, if_true]
 
 end
 
